@@ -6,9 +6,10 @@
  *
  * Case line (all integers decimal, names without blanks):
  *   history <hid> <k> <cleanup> ;; <case> ;; <case> ...     k sessions recorded by ONE process (see run_history)
- *   case <id> hex <H> [keep <K>] nw <NW> sc <START_CLOCK> chk <CHK> [wsa <0|1>]
+ *   case <id> hex <H> [keep <K>] nw <NW> sc <START_CLOCK> chk <CHK> [wsa <0|1>] [alt <0|1>] [dump2 <0|1>]
  *        (keep 1: the .dag file stays in the scratch dir as c<id>.dag; wsa 0: worker states in the linear list
- *         found through a pthread key instead of the array)
+ *         found through a pthread key instead of the array; alt 0: every file name is ONE pointer, like __FILE__,
+ *         alt 1: two copies used alternately; dump2 1: dr_dump() twice, the first file is printed as G0/N0/E0/S0)
  *        rec <uncollapse_min> <collapse_max> <node_count_target> <prune_threshold> <collapse_max_count>
  *        conv <uncollapse_min> <collapse_max> <collapse_max_count>
  *        files <NF> <name>*NF
@@ -136,16 +137,27 @@ static const char * tk(void) { if (g_pos >= g_ntok) { printf("PARSE-ERROR eof\n"
 static long long tki(void) { return atoll(tk()); }
 static void expect(const char * s) { const char * t = tk(); if (strcmp(t, s)) { printf("PARSE-ERROR expected %s got %s\n", s, t); exit(3); } }
 
-/* every file name exists in two copies at different addresses, used alternately, so that the string
-   table has to compare contents and not pointers */
-static char ** g_files; static char ** g_files2; static int g_nfiles; static unsigned g_fcalls;
+/* every file name exists in two copies at different addresses, used alternately (alt 1), so that the string
+   table has to compare contents and not pointers; or only the first copy is used (alt 0), like a __FILE__ literal.
+   The copies live in a pool of the PROCESS: the same name has the same addresses in every session of a history,
+   as the literals of a real program have. */
+static char ** g_files; static char ** g_files2; static int g_nfiles; static unsigned g_fcalls; static int g_alt = 1;
+typedef struct name_pool { struct name_pool * next; char * a, * b; } name_pool;
+static name_pool * g_pool;
+static name_pool * pool_get(const char * s) {
+  name_pool * p;
+  for (p = g_pool; p; p = p->next) if (!strcmp(p->a, s)) return p;
+  p = (name_pool *)malloc(sizeof(name_pool));
+  p->a = strdup(s); p->b = strdup(s); p->next = g_pool; g_pool = p;
+  return p;
+}
 /* with the linear list of worker states (wsa 0) a state belongs to the calling THREAD and takes the worker id of
    the first call; this harness has one thread, which is worker 0 as dr_get_worker() would number it */
 static int g_wsa = 1;
 static int WK(long long x) { return g_wsa ? (int)x : 0; }
 static const char * fname(long long k) {
   int i = (int)((k % g_nfiles + g_nfiles) % g_nfiles);
-  return (g_fcalls++ & 1) ? g_files2[i] : g_files[i];
+  return (g_alt && (g_fcalls++ & 1)) ? g_files2[i] : g_files[i];
 }
 
 /* run one task; returns its end time.  *now is the time of the thread of control, w its worker */
@@ -273,11 +285,17 @@ static int files_equal(const char * a, const char * b) {
   return r;
 }
 
+static long file_size(const char * a) {
+  FILE * f = fopen(a, "rb"); long r = -1;
+  if (f) { fseek(f, 0, SEEK_END); r = ftell(f); fclose(f); }
+  return r;
+}
+
 static char g_self[600];
 
 typedef struct {
-  long long id, hexlim; int keep, chk, nw, wsa;
-  char prefix[512], prefix2[512];
+  long long id, hexlim; int keep, chk, nw, wsa, alt, dump2;
+  char prefix[512], prefix2[512], prefix0[512];
   const char * c_umin, * c_cmax, * c_cmc;
   int end_w;
 } session;
@@ -297,6 +315,9 @@ static void record_session(const char * dir, session * S, int no_init) {
   expect("chk"); S->chk = (int)tki();
   S->wsa = 1; if (peek("wsa")) { g_pos++; S->wsa = (int)tki(); }
   g_wsa = S->wsa;
+  S->alt = 1; if (peek("alt")) { g_pos++; S->alt = (int)tki(); }
+  g_alt = S->alt;
+  S->dump2 = 0; if (peek("dump2")) { g_pos++; S->dump2 = (int)tki(); }
   dr_options_default_(opts);
   opts->on = 1;
   opts->dag_file_yes = 1; opts->stat_file_yes = 1; opts->gpl_file_yes = 0; opts->dot_file_yes = 0; opts->text_file_yes = 0;
@@ -311,10 +332,11 @@ static void record_session(const char * dir, session * S, int no_init) {
   g_nfiles = (int)tki();
   g_files = (char **)malloc(sizeof(char *) * (g_nfiles + 1));
   g_files2 = (char **)malloc(sizeof(char *) * (g_nfiles + 1));
-  for (i = 0; i < g_nfiles; i++) { g_files[i] = strdup(tk()); g_files2[i] = strdup(g_files[i]); }
+  for (i = 0; i < g_nfiles; i++) { name_pool * p = pool_get(tk()); g_files[i] = p->a; g_files2[i] = p->b; }
   expect("prog");
   snprintf(S->prefix, sizeof S->prefix, "%s/c%lld", dir, S->id);
   snprintf(S->prefix2, sizeof S->prefix2, "%s/d%lld", dir, S->id);
+  snprintf(S->prefix0, sizeof S->prefix0, "%s/e%lld", dir, S->id);
   opts->dag_file_prefix = strdup(S->prefix);
   if (no_init) GS.opts.dag_file_prefix = opts->dag_file_prefix;
 
@@ -328,6 +350,15 @@ static void record_session(const char * dir, session * S, int no_init) {
   print_tree(GS.root);
   printf("\n");
   fflush(stdout);
+  if (S->dump2) {
+    /* dr_dump() twice with nothing recorded in between: e<id>.dag first, then c<id>.dag; the reader prints both */
+    const char * keep_prefix = GS.opts.dag_file_prefix;
+    char st0[600];
+    GS.opts.dag_file_prefix = S->prefix0;
+    dr_dump_();
+    GS.opts.dag_file_prefix = keep_prefix;
+    snprintf(st0, sizeof st0, "%s.stat", S->prefix0); unlink(st0);
+  }
   dr_dump_();                      /* dr_make_pi_dag + file writer + .stat of the in-memory dag */
   fflush(stdout);
 }
@@ -335,10 +366,12 @@ static void record_session(const char * dir, session * S, int no_init) {
 /* the file is read back by a FRESH process image (pointers written into the file by this
    process must not be usable by the reader) */
 static void exec_reader(session * S) {
-  char a_id[32], a_hex[32], a_chk[8], a_keep[8];
+  char a_id[32], a_hex[32], a_chk[8], a_keep[8], path0[600];
   snprintf(a_id, sizeof a_id, "%lld", S->id); snprintf(a_hex, sizeof a_hex, "%lld", S->hexlim);
   snprintf(a_chk, sizeof a_chk, "%d", S->chk); snprintf(a_keep, sizeof a_keep, "%d", S->keep);
-  execl(g_self, "c19_dump", "--read", S->prefix, S->prefix2, a_id, a_hex, S->c_umin, S->c_cmax, S->c_cmc, a_chk, a_keep, (char *)0);
+  snprintf(path0, sizeof path0, "%s.dag", S->prefix0);
+  execl(g_self, "c19_dump", "--read", S->prefix, S->prefix2, a_id, a_hex, S->c_umin, S->c_cmax, S->c_cmc, a_chk, a_keep,
+        S->dump2 ? path0 : "-", (char *)0);
   printf("EXEC-FAILED\n"); fflush(stdout); _exit(4);
 }
 
@@ -394,6 +427,14 @@ static int stage_read(char ** a) {
   snprintf(st1, sizeof st1, "%s.stat", prefix);
   snprintf(st2, sizeof st2, "%s.stat", prefix2);
   init_reader_opts(prefix2, chk);
+  if (a[9] && strcmp(a[9], "-")) {
+    /* the first of two dumps of the same session */
+    dr_pi_dag * G0 = dr_read_dag(a[9]);
+    if (!G0) { printf("READ-FAILED first dump\n"); fflush(stdout); return 0; }
+    print_pi_dag("0", G0);
+    printf("SIZE0 %ld %ld\n", file_size(a[9]), file_size(path));
+    unlink(a[9]);
+  }
   dr_pi_dag * G = dr_read_dag(path);
   if (!G) { printf("READ-FAILED\n"); fflush(stdout); return 0; }
   print_pi_dag("", G);
@@ -441,7 +482,7 @@ int main(int argc, char ** argv) {
   char * line = 0; size_t cap = 0; ssize_t len;
   { ssize_t r = readlink("/proc/self/exe", g_self, sizeof g_self - 1); if (r < 0) r = 0; g_self[r] = 0; }
   if (argc >= 2 && !strcmp(argv[1], "--layout")) { print_layout(); return 0; }
-  if (argc >= 11 && !strcmp(argv[1], "--read")) return stage_read(argv + 2);
+  if (argc >= 12 && !strcmp(argv[1], "--read")) return stage_read(argv + 2);
   if (argc >= 6 && !strcmp(argv[1], "--print")) return stage_print(argv + 2);
   if (argc < 2) { fprintf(stderr, "usage: %s --layout | <scratch dir>\n", argv[0]); return 2; }
   mkdir(argv[1], 0777);
